@@ -13,8 +13,9 @@ def ident(r, used, esc_rate=0.1):
         s = r.choice("abcdnqsxyABQ") + "".join(r.choice("abcxyz019_") for _ in range(r.randint(0, 4)))
         if r.random() < esc_rate:
             s = "\\" + s + r.choice(["", "[0]", ".x", "/y", "$"])
-        if s not in used and s not in KEYWORDS:
-            used.add(s)
+        key = s[1:] if s.startswith("\\") else s     # \\abc and abc are the same Verilog identifier
+        if key not in used and key not in KEYWORDS:
+            used.add(key)
             return s
     raise RuntimeError("identifier space exhausted")
 
@@ -106,8 +107,9 @@ def gen_design(r, cfg):
     used = set(i["of"] for m in modules for i in m["insts"])
     for m in modules:
         if m is not top and m["name"] not in used:
-            inames = set(i["name"] for i in top["insts"]) | set(p["name"] for p in top["ports"]) | set(
-                w["name"] for w in top["wires"])
+            inames = set(x.lstrip("\\") for x in (
+                [i["name"] for i in top["insts"]] + [p["name"] for p in top["ports"]] +
+                [w["name"] for w in top["wires"]] + list(top.get("implied", []))))
             top["insts"].append({"name": ident(r, inames, 0.0), "of": m["name"], "kind": "mod", "params": {},
                                  "attrs": {}, "positional": False, "conns": []})
     return {"modules": [m for m in order], "prims": prims, "top": top["name"]}
